@@ -93,6 +93,12 @@ def run_case(case):
 
     N = case["agents"]
     init = gen.gen_initial_states(rng, ref, N, out_of_range=0.05)
+    if case.get("kind") == "segment_template" and case["index"] % 2 == 0:
+        # some agents cannot afford the smallest consumption level: no feasible choice at all
+        init = {k_: np.array(v_, copy=True) for k_, v_ in init.items()}
+        pos = rng.permutation(N)[: max(2, N // 4)]
+        init["w"] = np.asarray(init["w"], dtype=float)
+        init["w"][pos] = np.round(rng.uniform(0.05, 0.45, len(pos)), 4)
     vf = simcheck.vf_arrays(ref, params, "ref", rng, refsol=refsol)
     vf_full = [ref.from_lcm_layout(vf[t], t) for t in range(ref.T)]
     T = ref.T
@@ -164,6 +170,18 @@ def run_case(case):
                     break
             add("c08_unequal_row_groups", found)
     varcols = ref.states + ref.choices
+    inscope0 = ref.rows_in_scope({s_: np.asarray(base[s_][0]) for s_ in ref.states}, 0) if ref.states else np.ones(N, bool)
+    # ... restricted to agents for which EVERY choice combination fails a filter or constraint (the
+    # masked maximum is -inf by definition; rows whose objective contains NaN through extrapolation
+    # next to -inf nodes are not judged: a first version compared them and alarmed on the unchanged
+    # tree, where reductions over NaN differ between batch sizes)
+    try:
+        with np.errstate(all="ignore"):
+            _, ok0, _ = ref.q_rows({s_: np.asarray(base[s_][0]) for s_ in ref.states}, 0, params, vf_full[1] if T > 1 else None)
+        inscope0 = inscope0 & ~np.asarray(ok0).reshape(N, -1).any(axis=1)
+    except Exception:  # noqa: BLE001 - reference cannot evaluate these rows: not judged
+        inscope0 = np.zeros(N, bool)
+        add("c08_feasibility_of_period0_rows_not_evaluated")
     for name, ids in variants.items():
         try:
             got = run(ids, key_order=list(reversed(ref.states)) if name == "reversed_keys" else None)
@@ -171,6 +189,20 @@ def run_case(case):
             res["violations"].append({"key": pipeline.exc_key(e, "simulate_" + name), "what": pipeline.exc_text(e)})
             continue
         add("c08_variants_run")
+        # period 0, agents inside the space WITHOUT a finite optimum (no feasible choice): their
+        # reported decision and value are still a function of their own state only
+        nf0 = inscope0[ids] & ~valid_base[0][ids]
+        if nf0.any():
+            d0 = np.zeros(len(ids), bool)
+            for c in ref.choices + ["value"]:
+                a, b = np.asarray(got[c][0], float), np.asarray(base[c][0][ids], float)
+                d0 |= ~((a == b) | (np.isnan(a) & np.isnan(b)))
+            add("c08_period0_rows_without_feasible_choice_compared", int(nf0.sum()))
+            if (d0 & nf0).any():
+                i0 = int(np.nonzero(d0 & nf0)[0][0])
+                res["violations"].append({
+                    "key": f"period0_depends_on_batch_without_feasible_choice:{name.split('_rows_')[0]}",
+                    "what": f"variant {name}, period 0: {int((d0 & nf0).sum())}/{int(nf0.sum())} agents without any feasible choice report another decision/value than in the base batch (agent id {int(ids[i0])}: choices+value {[float(got[c][0][i0]) for c in ref.choices + ['value']]} vs {[float(base[c][0][ids][i0]) for c in ref.choices + ['value']]})"})
         agree = np.ones(len(ids), bool)
         for t in range(tcmp):
             agree = agree & valid_base[t][ids]
